@@ -417,10 +417,10 @@ class Body:
     def local_leaf(self, l):
         if l in self.names and not self.names[l].startswith("__"):
             if 1 <= l <= self.argc:
-                return ("param", self.names[l])
-            return ("var", self.names[l])
+                return ("param", self.names[l], l)
+            return ("var", self.names[l], l)
         if 1 <= l <= self.argc:
-            return ("param", l)
+            return ("param", l, l)
         return None
 
     def place_term(self, place, depth=0, expand_vars=False, seen=None):
@@ -476,6 +476,10 @@ class Body:
         terms = []
         for (bi, si, rv, lhs) in ds[:6]:
             terms.append(self.def_term(bi, si, rv, depth + 1, expand_vars, seen))
+        if leaf is None:
+            for (bi, si, rv, lhs) in partial[:4]:  # stores into parts of an unnamed temporary (vec!, struct update)
+                if not self.blocks[bi]["cl"]:
+                    terms.append(self.def_term(bi, si, rv, depth + 1, expand_vars, seen))
         if leaf is not None and leaf[0] == "var" and any(_is_loop_item(t) for t in terms):
             return leaf  # loop variables keep their name
         if len(terms) == 1 and not partial:
@@ -543,6 +547,12 @@ class Body:
         if r == "repeat":
             return ("aggr", "repeat", "", "", [self.operand_term(rv["o"], depth + 1, expand_vars, seen)], [])
         return ("unknown",)
+
+    def var_defs(self, t):
+        """definitions (unexpanded terms) of a named variable / parameter term"""
+        if t[0] not in ("var", "param") or len(t) < 3:
+            return []
+        return [self.def_term(bi, si, rv, 0) for (bi, si, rv, lhs) in self.defs().get(t[2], ()) if len(lhs) == 1 and not self.blocks[bi]["cl"]]
 
     def switch_term(self, bi, expand_vars=False):
         t = self.blocks[bi]["t"]
@@ -854,3 +864,151 @@ def return_assignments(body):
             else:
                 out["other"].append(bi)
     return out
+
+
+# ---------------------------------------------------------------- value-flow (taint) over one body
+
+MUTATORS = re.compile(r"(::push$|::push_back$|::push_front$|::insert$|::extend$|::append$|::extend_from_slice$|::push_str$)")
+
+
+def flow_sources(body, term, barrier_re, limit=4000):
+    """Backward value flow from `term` inside one body.
+
+    Follows variables (every full and partial definition of the same local), loop items to their
+    collection, and values pushed/inserted into a collection variable; does not cross calls
+    matching barrier_re.  Returns (terminal call names reached, barrier call names met)."""
+    barrier = re.compile(barrier_re)
+    seen_locals = set()
+    terminals = set()
+    barriers = set()
+    work = [term]
+    steps = 0
+    mut_index = None
+    while work and steps < limit:
+        steps += 1
+        t = work.pop()
+        k = t[0]
+        if k in ("var", "param") and len(t) > 2:
+            l = t[2]
+            if l in seen_locals:
+                continue
+            seen_locals.add(l)
+            if k == "param" and not body.defs().get(l):
+                terminals.add("param:%s" % t[1])
+            for (bi, si, rv, lhs) in body.defs().get(l, ()):
+                if body.blocks[bi]["cl"]:
+                    continue
+                work.append(body.def_term(bi, si, rv, 0))
+            if mut_index is None:
+                mut_index = []
+                for bi, tt in body.live_calls():
+                    if MUTATORS.search(callee_name(tt)) and tt["args"]:
+                        a0 = tt["args"][0]
+                        p = a0.get("c") or a0.get("m")
+                        args = body.call_args(bi)
+                        base = args[0]
+                        while base[0] in ("ref", "deref", "field"):
+                            base = base[1]
+                        if base[0] in ("var", "param") and len(base) > 2:
+                            mut_index.append((base[2], args[1:]))
+            for bl, vals in mut_index:
+                if bl == l:
+                    work.extend(vals)
+            continue
+        if k == "upvar":
+            terminals.add("upvar:%s" % t[1])
+            continue
+        if k in ("call", "await"):
+            inner = t
+            if k == "await":
+                inner = t[1]
+                while inner[0] in ("ref", "deref"):
+                    inner = inner[1]
+                if inner[0] != "call":
+                    work.append(inner)
+                    continue
+            name = inner[1]
+            if barrier.search(name):
+                barriers.add(name)
+                continue
+            if not inner[2]:
+                terminals.add(name)
+                continue
+            if TRANSPARENT.search(name) or name.endswith("::next") or name.endswith("::into_iter") or name.endswith("::iter") \
+                    or name.endswith("::remove") or name.endswith("::get") or name.endswith("::get_mut") or name.endswith("::drain") \
+                    or name.endswith("Box::new") or name.endswith("::map_err") or name.endswith("::ok_or"):
+                work.extend(inner[2][:1])
+                continue
+            terminals.add(name)
+            work.extend(inner[2])
+            continue
+        if k in ("field", "deref", "ref", "index", "downcast", "cast", "discr"):
+            work.append(t[1])
+        elif k == "aggr":
+            work.extend(t[4])
+        elif k == "bin":
+            work.extend([t[2], t[3]])
+        elif k == "un":
+            work.append(t[2])
+        elif k == "phi":
+            work.extend(t[1])
+    return terminals, barriers
+
+
+def elem_collection(body, var_term):
+    """for a loop variable: the term of the collection it iterates, else None"""
+    if var_term[0] != "var" or len(var_term) < 3:
+        return None
+    for (bi, si, rv, lhs) in body.defs().get(var_term[2], ()):
+        t = body.def_term(bi, si, rv, 0)
+        while t[0] in ("field", "downcast", "deref", "ref"):
+            t = t[1]
+        if t[0] == "call" and t[1].endswith("::next") and t[2]:
+            it = t[2][0]
+            while it[0] in ("ref", "deref"):
+                it = it[1]
+            if it[0] == "var":
+                for (bi2, si2, rv2, lhs2) in body.defs().get(it[2], ()):
+                    t2 = body.def_term(bi2, si2, rv2, 0)
+                    if t2[0] == "call" and t2[2]:
+                        c = t2[2][0]
+                        while c[0] in ("ref", "deref"):
+                            c = c[1]
+                        if c[0] == "call" and TRANSPARENT.search(c[1]) and c[2]:
+                            c = c[2][0]
+                            while c[0] in ("ref", "deref"):
+                                c = c[1]
+                        return c
+    return None
+
+
+def full_path(body, t, depth=0):
+    """field path where loop variables are replaced by `<collection path>[]`"""
+    parts = []
+    while depth < 30:
+        depth += 1
+        k = t[0]
+        if k == "field" and t[2].isdigit() and t[1][0] == "downcast" and t[1][2] in WRAP_VARIANTS:
+            t = t[1][1]
+        elif k == "field":
+            parts.append(t[2])
+            t = t[1]
+        elif k in ("deref", "ref", "cast", "downcast", "await"):
+            t = t[1]
+        elif k == "call" and t[2] and TRANSPARENT.search(t[1]):
+            t = t[2][0]
+        elif k == "var":
+            c = elem_collection(body, t)
+            if c is not None:
+                parts.append("[]")
+                t = c
+                continue
+            parts.append(str(t[1]))
+            break
+        elif k in ("param", "upvar"):
+            parts.append(str(t[1]))
+            break
+        else:
+            parts.append("<" + k + ">")
+            break
+    return ".".join(reversed(parts))
